@@ -60,6 +60,9 @@ def run(ctx):
         nd = rng.choice([0, 0, 0, 2])
         r = rng.randint(1, 6)
         n = rng.randint(1, 14 if ctx.quick else 30)
+        if it % 40 == 11:
+            n = rng.choice([17, 33, 65, rng.randint(20, 80)])      # scale-up slice: many candidates (heap / threshold updates)
+            ctx.count("large_candidate_lists")
         kind = rng.choice(["alpha", "dyadic", "gauss", "small"])
         exact_tie = (not nd) and rng.random() < 0.06
         mk = (lambda m: gen.series_nd(rng, m, nd, kind)) if nd else (lambda m: gen.series(rng, m, kind))
